@@ -89,6 +89,16 @@ fn new_scn(timeout: Duration) -> Result<Scn, Panicked> {
     api(L::scanner_new, || Scn { cc: ControlChange14BitMessageScanner::new(), pn: ParameterNumberMessageScanner::new(), po: PollingParameterNumberMessageScanner::new(timeout) })
 }
 
+/// The other creation path: `Default::default()` ("since creation" covers it just as well). The
+/// polling scanner's default has a zero timeout, so it is only used when the run's timeout is zero.
+fn default_scn(timeout: Duration) -> Result<Scn, Panicked> {
+    api(L::scanner_default, || Scn {
+        cc: Default::default(),
+        pn: Default::default(),
+        po: if timeout.is_zero() { Default::default() } else { PollingParameterNumberMessageScanner::new(timeout) },
+    })
+}
+
 fn feed_scn(s: &mut Scn, raw: &RawShortMessage, b: [u8; 3], repr: u8) -> Result<Res3, Panicked> {
     let r_cc = api(L::cc14_feed, || with_repr!(*raw, b, repr, |m| s.cc.feed(m)))?;
     let r_pn = api(L::pn_feed, || with_repr!(*raw, b, repr, |m| s.pn.feed(m)))?;
@@ -154,6 +164,43 @@ fn telemetry(ch: Channel, a: U14, b: U14, cn: Option<ControllerNumber>) -> Resul
             None => true,
         };
         ok && c == Ok(ch) && x == Ok(a) && y == Ok(b) && kk
+    })
+}
+
+/// Text faults: the host also parses number fields that did not come out of `Display` - typed by a
+/// user, or garbled in transit: multi-byte characters at every offset, full-width and Arabic-Indic
+/// digits, signs, blanks, long zero padding. The parsers are fallible by contract, so whatever they
+/// answer is fine; they only must not panic or allocate (C18). Deterministic in (a, b).
+fn garbled_parse(a: u16, b: u16) -> Result<u32, Panicked> {
+    let mut buf = Buf { b: [0; 64], n: 0 };
+    let k = (a as usize).wrapping_add(b as usize);
+    let pieces: [&str; 12] = ["\u{e9}", "\u{20ac}", "\u{ff11}\u{ff12}\u{ff17}", "\u{661}\u{662}\u{663}", "+", "-", " ", "0000000000000000", "\u{1f3b9}", "\u{e9}\u{e9}", "00000", "127"];
+    let zeros = k % 7;
+    for _ in 0..zeros {
+        let _ = buf.write_str("0");
+    }
+    let _ = write!(buf, "{}", a % 200);
+    let _ = buf.write_str(pieces[k % 12]);
+    let _ = write!(buf, "{}", b);
+    if k % 3 == 0 {
+        let _ = buf.write_str(pieces[(k / 3) % 12]);
+        let _ = write!(buf, "{}", a);
+    }
+    let Ok(s) = std::str::from_utf8(&buf.b[..buf.n]) else { return Ok(0) };
+    api(L::telemetry_display_fromstr, || {
+        let mut oks = 0u32;
+        // every suffix that starts on a character boundary, so that the multi-byte characters land
+        // on every byte offset relative to the end of the string
+        for (i, _) in s.char_indices() {
+            let t = &s[i..];
+            oks += t.parse::<U7>().is_ok() as u32;
+            oks += t.parse::<U14>().is_ok() as u32;
+            oks += t.parse::<U4>().is_ok() as u32;
+            oks += t.parse::<Channel>().is_ok() as u32;
+            oks += t.parse::<KeyNumber>().is_ok() as u32;
+            oks += t.parse::<ControllerNumber>().is_ok() as u32;
+        }
+        oks
     })
 }
 
@@ -293,12 +340,13 @@ impl<'a> Exec<'a> {
         let timeout = dur(trace.timeout_ns);
         let mut sink = Sink::new();
         let init = (|| -> Result<(Scn, Vec<Scn>, Scn), Panicked> {
-            let main = new_scn(timeout)?;
+            let make = if trace.ctor_default { default_scn } else { new_scn };
+            let main = make(timeout)?;
             let mut solo = Vec::with_capacity(16);
             for _ in 0..16 {
-                solo.push(new_scn(timeout)?);
+                solo.push(make(timeout)?);
             }
-            let twin = new_scn(timeout)?;
+            let twin = make(timeout)?;
             Ok((main, solo, twin))
         })();
         let (main, solo, twin) = match init {
@@ -1163,6 +1211,10 @@ impl<'a> Exec<'a> {
                 self.p.telemetry_mismatch += 1;
             }
             self.p.telemetry_calls += 1;
+            if apimon::full_surface() {
+                let (a, b) = api(L::pn_accessors, || (x.number().get(), x.value().get()))?;
+                self.p.garbled_parses += garbled_parse(a, b)? as u64 + 1;
+            }
         }
         for x in r_po.iter().flatten() {
             self.p.reports_polling_feed += 1;
